@@ -7,7 +7,7 @@ namespace Hagall.Props.C14
 open Hagall
 
 /-- The limit the model uses is the protocol's 10240 bytes (the constant extracted from the source is
-    tied to it by the facts obligation `Hagall.Gen.Obligations.customMessageMaxSize_eq`). -/
+    tied to it by the facts obligation `Hagall.Gen.customMessageMaxSize_eq (Hagall/Gen/AbsCustom.lean)`). -/
 theorem C14_limit : customMessageMaxSize = 10240 := rfl
 
 /-- A body larger than the limit is refused with TOO_LARGE, delivered to no one, and changes nothing. -/
